@@ -45,7 +45,61 @@ pub fn exec(c: &[i64]) -> Vec<i64> {
     })
 }
 
+/// case 8 extra wait_ms: a streaming client stops reading until the daemon's side of the socket is full
+/// and its session sits in a write; `extra` further signals are published (one by one), nobody reads
+/// for wait_ms, then the client reads everything. It falls behind, so it may lose OVERWRITTEN signals
+/// (the oldest extra-16 if extra > 16) and nothing else; frames stay whole; a second, reading session
+/// gets every signal meanwhile.  obs = [lost_by_the_stalled_client, in_order, whole_frames, lost_by_the_other, other_in_order]
+fn stalled(rig: &mut Rig, extra: usize, wait_ms: u64) -> Vec<i64> {
+    let Rig { rt, server, path, command_tx, .. } = rig;
+    let tick = Duration::from_millis(1);
+    // the sessions' signal channel, capacity as in the runtime; only the two sessions subscribe
+    let (stx, srx0) = tokio::sync::broadcast::channel::<Object>(16);
+    drop(srx0);
+    rt.block_on(async {
+        let mut hello = header(0x10, 2); hello.extend([0x01, b'c']);
+        let mut a = StdUnix::connect(&*path).unwrap(); a.set_nonblocking(true).ok();
+        server.wait_io_sub(command_tx.clone(), stx.subscribe()).await;
+        let mut b = StdUnix::connect(&*path).unwrap(); b.set_nonblocking(true).ok();
+        server.wait_io_sub(command_tx.clone(), stx.subscribe()).await;
+        let _ = a.write_all(&hello); let _ = b.write_all(&hello);
+        for _ in 0..5 { tokio::time::sleep(tick).await; }
+        let read_all = |s: &mut StdUnix, buf: &mut Vec<u8>| { let mut tmp = [0u8; 65536]; loop { match s.read(&mut tmp) { Ok(0) => break, Ok(n) => buf.extend(&tmp[..n]), Err(_) => break } } };
+        let (mut got_a, mut got_b) = (Vec::new(), Vec::new());
+        let publish = |i: usize| { let _ = stx.send(Object::Engine(glonax::core::Engine { driver_demand: 1, actual_engine: 2, rpm: (i % 60000) as u16, state: glonax::core::EngineState::Request })); };
+        // until the stalled client's session no longer takes signals off the queue
+        let mut n = 0usize;
+        let mut blocked = false;
+        while n < 40_000 {
+            publish(n); n += 1;
+            for _ in 0..6 { tokio::task::yield_now().await; }
+            read_all(&mut b, &mut got_b);
+            if stx.len() > 0 { tokio::time::sleep(tick).await; read_all(&mut b, &mut got_b); if stx.len() > 0 { blocked = true; break; } }
+        }
+        if !blocked { return vec![-5]; }
+        // the queue holds 1 signal now; extra - 1 more
+        for _ in 1..extra { publish(n); n += 1; for _ in 0..6 { tokio::task::yield_now().await; } tokio::time::sleep(tick).await; read_all(&mut b, &mut got_b); }
+        tokio::time::sleep(Duration::from_millis(wait_ms)).await;
+        // the client wakes up
+        let mut quiet = 0;
+        while quiet < 30 { let before = got_a.len(); read_all(&mut a, &mut got_a); read_all(&mut b, &mut got_b); if got_a.len() == before { quiet += 1; } else { quiet = 0; } tokio::time::sleep(tick).await; }
+        let rpms = |buf: &[u8]| -> Option<Vec<usize>> { frames(buf).map(|fs| fs.iter().filter(|(t, _)| *t == 0x43).map(|(_, p)| ((p[2] as usize) << 8) | p[3] as usize).collect()) };
+        let judge = |buf: &[u8]| -> (i64, i64, i64) {
+            match rpms(buf) {
+                None => (-1, 0, 0),
+                Some(v) => { let inorder = v.windows(2).all(|w| w[0] < w[1]) as i64; (n as i64 - v.len() as i64, inorder, 1) }
+            }
+        };
+        let (la, oa, wa) = judge(&got_a);
+        let (lb, ob, _) = judge(&got_b);
+        drop(a); drop(b);
+        for _ in 0..400 { tokio::time::sleep(tick).await; if stx.receiver_count() == 0 { break; } }
+        vec![la, oa, wa, lb, ob]
+    })
+}
+
 fn run(rig: &mut Rig, c: &[i64]) -> Vec<i64> {
+    if c[0] == 8 { return stalled(rig, c[1] as usize, c[2] as u64); }
     let Rig { rt, server, path, command_tx, signal_tx, .. } = rig;
     let ns = c[0] as usize;
     let tick = Duration::from_millis(1);
@@ -121,6 +175,10 @@ pub fn gen(o: &Opts, sink: &mut dyn FnMut(Vec<i64>, String)) {
         if !o.tier_thorough && (ma * 256 + mi) % 5 != 0 && !(ma == 3 && (mi <= 6 || (48..=60).contains(&mi))) && !(mi == 5) { continue; }
         put!(vec![9, ma, mi, (ma + mi) % 256]);
     } }
+    // a streaming client that stops reading for a while (socket full, session parked in a write) and then reads again
+    let stalls: Vec<(i64, i64)> = if o.tier_thorough { vec![(1, 300), (2, 700), (3, 1200), (8, 600), (15, 400), (16, 900), (17, 300), (20, 600), (40, 300), (5, 2000), (16, 50), (1, 0)] }
+                                  else { vec![(3, 700), (16, 350), (20, 300)] };
+    for (extra, wait) in stalls { put!(vec![8, extra, wait]); }
     // all 32 flag combinations x names; bursts around the capacity; 1-4 sessions
     let mut rng = Rng::new(o.seed, 14);
     for flags in 0..32u8 {
